@@ -2,10 +2,10 @@
 from reg._common import COMMON_ASSUME
 
 ENTRY = {
-    'lean_files': ['Props/C17.lean', 'Props/C17Pipeline.lean'],
+    'lean_files': ['Props/C17.lean', 'Props/C17Pipeline.lean', 'Props/C17Pipeline2.lean'],
     'lemma_files': ['Lemmas/Equivariance.lean', 'Lemmas/Shift.lean', 'Lemmas/Bridge.lean', 'Lemmas/VS.lean', 'Lemmas/Elevate.lean',
                     'Lemmas/Subdivide.lean', 'Props/C04.lean', 'Props/C08.lean', 'Model/Basic.lean', 'Model/Curve.lean',
-                    'Lemmas/PipelineEquivariance.lean', 'Lemmas/PipelineTranslate.lean', 'Lemmas/PipelineInst.lean', 'Lemmas/Pipeline.lean',
+                    'Lemmas/PipelineEquivariance.lean', 'Lemmas/PipelineTranslate.lean', 'Lemmas/PipelineLinear.lean', 'Lemmas/PipelineScale.lean', 'Lemmas/PipelineMirror.lean', 'Lemmas/BoxLine.lean', 'Lemmas/Solve2x2.lean', 'Lemmas/PipelineInst.lean', 'Lemmas/Pipeline.lean',
                     'Lemmas/Predicates.lean', 'Lemmas/PredicatesHull.lean', 'Model/Geometric.lean', 'Model/GeometricInst.lean',
                     'Model/Helpers.lean', 'Model/Newton.lean', 'Model/Locate.lean', 'Model/Solve2x2.lean'],
     'script': 'props/c17.py',
@@ -30,7 +30,8 @@ ENTRY = {
                 'pair, reproduced on both builds of the real code, whose translate loses a reported column; that column is a tolerance-level '
                 'near-intersection of two end points 2^-41 apart, not a common point of the curves, so it limits the theorem and is not a '
                 'violation of the property; mirror and axis swap at pipeline level are not proved (blocked by the traversal order of '
-                'simple_convex_hull and by the skipped left edge of bbox_line_intersect, see the FULL: comment)',
+                'simple_convex_hull; superseded by Props/C17Pipeline2)',
+                'pipeline level, continued (Props/C17Pipeline2, Lemmas/PipelineLinear, PipelineScale, PipelineMirror): the generic theorem is generalised to two primitive records (allIntersections_related: P\' on transformed data answers like P on the original, the linearisation error transformed by a map E and compared with a rescaled threshold); SCALING k > 0: pipeline_scale_partial - invariant when the squared linearisation threshold is rescaled by k^2 (scale_threshold_matters is the decided witness that this absolute constant is the one behind the scale-dependence finding F-O), hypotheses vector_close (zero-vector branch compares with the absolute eps: decided refutation) and the double-root Newton iteration (mixes F ~ k with B1\' x B2\' ~ k^2: decided refutation); every other primitive of both variants proved scale invariant; MIRROR / AXIS SWAP: pipeline_mirror_partial, pipeline_swap_axes_partial - every primitive proved invariant (bbox_line_intersect on every box incl. degenerate ones, solve2x2 independent of the pivot rule by uniqueness, the double-root system literally equal) except convex_hull_collide, whose invariance is the single hypothesis (completeness of the separating-axis answer is not available); REVERSAL s -> 1-s is NOT an equivariance of the executable pipeline even up to relabelling: add_intersection and the Newton stopping rule are relative to the norm of (s,t) (reversal_not_equivariant, decided witnesses) - the real code is only required to agree on well-conditioned crossings, which the metamorphic oracle checks',
                 'the other presentations (reverse, elevate, split, scale, argument swap) are specification level: the theorems state how the exact intersection set {(s,t) | B1(s) = B2(t)} of the list model '
                 'is relabelled by each presentation (and that the bounding-box decision is invariant under the presentations that keep '
                 'the control points); that the subdivision / Newton pipeline all_intersections and the triangle pipeline return this '
